@@ -1276,6 +1276,15 @@ func (x *Exec) havocLoop(fr *frameRun, l *loopInfo, st *State, phis []*ssa.Phi) 
 			nv.Fn, nv.Bind = old.Fn, old.Bind
 		}
 		st.env[phi] = nv
+		// the hidden index of a `for i := range s` loop starts at -1 and is only ever
+		// incremented while the incremented value is below len(s): it is never below -1
+		if phi.Comment == "rangeindex" && len(nv.C) == 1 && len(phi.Edges) >= 2 {
+			if c, ok := phi.Edges[0].(*ssa.Const); ok && c.Value != nil && c.Int64() == -1 {
+				x.assumeIn(st, x.tb.Cmp("bvsle", x.tb.BV(64, ^uint64(0)), nv.C[0]))
+				// ... and every value it took was below a slice length (< 2^48)
+				x.assumeIn(st, x.tb.Cmp("bvslt", nv.C[0], x.tb.BV(64, 1<<sizeBits)))
+			}
+		}
 	}
 	// the frontier may move (objects allocated by earlier iterations)
 	oldTop := st.top
